@@ -76,7 +76,14 @@ func raceChild(seed uint64, n int) (available bool, note string, races []string,
 	}
 	rep = map[string]any{}
 	if err := json.Unmarshal(bytes.TrimSpace(so.Bytes()), &rep); err != nil {
-		return true, "race child crashed: " + tail(se.String(), 600), races, nil
+		msg := tail(se.String(), 600)
+		for _, l := range strings.Split(se.String(), "\n") {
+			if strings.HasPrefix(l, "fatal error:") || strings.HasPrefix(l, "panic:") {
+				msg = l + " … " + tail2(se.String()[strings.Index(se.String(), l):], 900)
+				break
+			}
+		}
+		return true, "race child crashed: " + msg, races, nil
 	}
 	return true, "", races, rep
 }
@@ -137,55 +144,29 @@ func init() {
 		Replay: replayVMLine,
 		Run: func(c *Ctx) {
 			c.Rule("C08: programs of six families (closures; source-module imports with mutable module state; builtin modules strings/time incl. a script changing its own copy; errors thrown through modules and formatted with %+v stack traces; callbacks through pooled child VMs via strings.Map/IndexFunc/FieldsFunc/TrimFunc, nested and throwing; gen.Program scripts) compiled once; 8 goroutines x 3 runs on the one Bytecode, each VM with its own globals and arguments: every result (value | error name+message+%+v text, final globals) must equal the solo result for the same arguments, also after the concurrent phase; builtin-module privacy probe (sequential and concurrent); the same workload in a child process built with `go build -race` (a race report = violation); solo runs of scripts in the modelled subset are compared with the Lean VM model in lock-step (outcome, instruction count, trace hash, globals); distinct = (family, outcome class, trace-hash class) of model-compared cases")
-			n := 140 * c.Scale
-			vms, k := 8, 3
-			for _, cs := range conc.Generate(c.R.Fork(), n) {
-				bc, noOpt, err := cs.CompileAny()
-				if err != nil {
-					c.Count("compile-error:" + cs.Family)
-					continue
-				}
-				c.Count("family:" + cs.Family)
-				solo, diffs := conc.RunConcurrent(cs, bc, vms, k)
-				cls := strings.SplitN(solo[0], " ", 2)[0]
-				c.Count("outcome:" + cls)
-				for _, d := range diffs {
-					c.Violation(PropViolation{Property: "C08",
-						What:  fmt.Sprintf("VM %d running concurrently with %d others on one Bytecode returned %s; alone it returns %s", d.ID, vms-1, d.Conc, d.Solo),
-						Input: cs.Src, Sig: "C08:concurrent-differs:" + d.Family})
-				}
-				line, impl, ok := concLine(cs, bc, noOpt)
-				if !ok {
-					c.Add(Case{Line: skipLine, Impl: "unsupported impl-only"})
-					continue
-				}
-				key := ""
-				if f := strings.Split(impl, "\t"); len(f) > 2 {
-					key = cs.Family + "/" + cls + "/" + f[2]
-				}
-				c.Add(Case{Line: line, Impl: impl, Key: key})
-			}
-			// builtin-module privacy
-			for _, concurrent := range []bool{false, true} {
-				if leak := conc.PrivacyProbe("strings", concurrent); leak != "" {
-					c.Violation(PropViolation{Property: "C08", What: "a builtin module value is shared between VMs: " + leak,
-						Input: "m := import(\"strings\"); m.verifMark = …  (conc.PrivacyProbe)", Sig: "C08:builtin-module-shared"})
-				}
-				c.Count("privacy-probe")
-			}
 			// the race detector
 			rn := 42
 			if c.Scale > 1 {
 				rn = 420
 			}
-			avail, note, races, rep := raceChild(c.R.U64(), rn)
+			avail, note, races, rep := raceChild(c.R.Fork().U64(), rn)
+			unsafe := false
 			switch {
 			case !avail:
 				c.Count("race-build-unavailable: " + note)
 			default:
 				c.Count("race-child-ran")
 				if note != "" {
-					c.Violation(PropViolation{Property: "C08", What: note, Input: "cmd/racechild", Sig: "C08:race-child-failed"})
+					unsafe = true
+					sig := "C08:race-child-failed"
+					if strings.Contains(note, "concurrent map") {
+						sig = "C08:fatal-concurrent-map-access"
+					}
+					c.Violation(PropViolation{Property: "C08", What: "the workload crashed in the child process: " + note,
+						Input: "harness/cmd/racechild (go build -race), workload harness/conc", Sig: sig})
+				}
+				if len(races) > 0 {
+					unsafe = true
 				}
 				for _, rc := range races {
 					loc := "?"
@@ -208,6 +189,54 @@ func init() {
 						c.dist["race-child-runs"] += int(runs)
 					}
 				}
+			}
+			n := 140 * c.Scale
+			vms, k := 8, 3
+			for _, cs := range conc.Generate(c.R.Fork(), n) {
+				bc, noOpt, err := cs.CompileAny()
+				if err != nil {
+					c.Count("compile-error:" + cs.Family)
+					continue
+				}
+				c.Count("family:" + cs.Family)
+				var solo []string
+				var diffs []conc.Diff
+				if unsafe {
+					// the child process already showed unsynchronised sharing: running the
+					// goroutines in this process could kill it (Go fatal error); solo runs only
+					c.Count("in-process-concurrency-skipped")
+					solo = []string{conc.RunOne(bc, cs.Recover, 0)}
+				} else {
+					solo, diffs = conc.RunConcurrent(cs, bc, vms, k)
+				}
+				cls := strings.SplitN(solo[0], " ", 2)[0]
+				c.Count("outcome:" + cls)
+				for _, d := range diffs {
+					c.Violation(PropViolation{Property: "C08",
+						What:  fmt.Sprintf("VM %d running concurrently with %d others on one Bytecode returned %s; alone it returns %s", d.ID, vms-1, d.Conc, d.Solo),
+						Input: cs.Src, Sig: "C08:concurrent-differs:" + d.Family})
+				}
+				line, impl, ok := concLine(cs, bc, noOpt)
+				if !ok {
+					c.Add(Case{Line: skipLine, Impl: "unsupported impl-only"})
+					continue
+				}
+				key := ""
+				if f := strings.Split(impl, "\t"); len(f) > 2 {
+					key = cs.Family + "/" + cls + "/" + f[2]
+				}
+				c.Add(Case{Line: line, Impl: impl, Key: key})
+			}
+			// builtin-module privacy
+			for _, concurrent := range []bool{false, true} {
+				if concurrent && unsafe {
+					continue
+				}
+				if leak := conc.PrivacyProbe("strings", concurrent); leak != "" {
+					c.Violation(PropViolation{Property: "C08", What: "a builtin module value is shared between VMs: " + leak,
+						Input: "m := import(\"strings\"); m.verifMark = …  (conc.PrivacyProbe)", Sig: "C08:builtin-module-shared"})
+				}
+				c.Count("privacy-probe")
 			}
 		},
 	})
